@@ -173,6 +173,23 @@ def copts_noise(keys=("poll", "ping_rate", "ping_timeout", "close_timeout", "aut
     return weighted([(2, st.just({})), (1, opt)])
 
 
+# constructor arguments that only shape the upgrade request: user-agent strings and sub-protocol names as applications
+# really write them (accents, other scripts, symbols beyond Latin-1 and beyond the BMP, a very long one), extra headers
+WSOPTS_VALUES = {
+    "agent": ["Caf\u00e9/1.0", "\u0141\u00f3d\u017a-\u043a\u043b\u0438\u0435\u043d\u0442/2 \u20ac",
+              "\u5ba2\u6237\u7aef/3 \U0001f600", "A" * 300, "x"],
+    "protocols": [["chat"], ["v1.json", "v2.json", "superchat"], ["\u010dhat", "\u30c7\u30fc\u30bf"], ["p" * 200]],
+    "headers": [[[b"X-Trace".hex(), b"abc; def=\"1\"".hex()]],
+                [[b"Cookie".hex(), "s\u00e9ssion=\u20ac".encode("utf-8").hex()], [b"X-Empty".hex(), b"".hex()]]],
+}
+
+
+def wsopts_noise():
+    """WebSocket() constructor arguments that must make no difference to the property at hand."""
+    opt = st.fixed_dictionaries({}, optional={k: st.sampled_from(v) for k, v in WSOPTS_VALUES.items()})
+    return weighted([(3, st.just({})), (1, opt)])
+
+
 def noise_calls():
     """Calls with unsendable arguments (oversize close reason / control payload, wrong types, unencodable JSON) that the
     application makes at drawn events and whose TypeError/ValueError it catches: they must leave no trace."""
